@@ -171,6 +171,8 @@ def opaque_getattr(I, obj, name):
     sp = obj.spec
     if name in sp.get("methods", {}):
         return OpaqueMethod(obj, name)
+    if name in sp.get("dyn_attrs", {}):
+        return sp["dyn_attrs"][name](I, obj)          # recomputed at every read (model-backed state)
     a = sp.get("attrs", {})
     if name in a:
         v = a[name]
